@@ -94,6 +94,28 @@ def run(res, tier, seed):
                 plans.append((fmt, n, kind))
     coq = []
     known_hits = []
+    # ---------- header start time at the boundary values of its fields (ms 0 / 1 / 86399999, day 1 / 365 / 366) ----------
+    for fmt in ("gac_klm", "gac_pod", "lac_klm", "lac_pod"):
+        fam = l1b.FMT[fmt]["family"]
+        years = [2000, 2001, 2004, 2019] if fam == "klm" else [1985, 1992, 1996, 2000]
+        for year in years:
+            leap = year % 4 == 0
+            for doy in (1, 60, 365) + ((366,) if leap else ()):
+                for ms in (0, 1, 43200000, 86399999):
+                    H = tg.ms_of(datetime.datetime(year, 1, 1)) + (doy - 1) * 86400000 + ms
+                    nums = [1, 2, 3]
+                    p = dict(fmt=fmt, nums=nums, rec=tg.recorded_ms(fmt, nums, H), header=H, start=H, kind="header-boundary",
+                             reading="firstline", gaps=[])
+                    ctx = dict(fmt=fmt, header=str(tg.dt_of(H)), header_fields=[year, doy, ms], seed=seed)
+                    try:
+                        r, t = tg.read_times(fmt, tg.build(p))
+                        hts = tg.ms_of(r.get_header_timestamp())
+                    except Exception as e:  # noqa
+                        res.violations.append(("header start time at a boundary value of its fields is not decoded: %r" % (e,), ctx))
+                        continue
+                    if hts != H:
+                        res.violations.append(("header start time decoded wrongly", dict(ctx, got=str(tg.dt_of(hts)))))
+                    res.add_case(("hdr", fmt, year, doy, ms), True, ctx)
     for fmt, n, kind in plans:
         p = tg.clean_pass(rng, fmt, n, kind)
         data = tg.build(p)
